@@ -1,4 +1,4 @@
-\* exhaustive: methods x statuses x classes (fresh, or replayed from three classes of earlier answers), quick tier: two calls, one repetition
+\* thorough: methods x statuses x classes, fresh or replayed from sixteen classes of earlier answers; two calls, one repetition
 CONSTANTS
   Statuses = {200, 204, 301, 400, 404, 429, 500}
   RetryStatuses = {408, 429, 503}
@@ -9,8 +9,8 @@ CONSTANTS
   MaxCalls = 2
   CarryLayers = {"http", "json", "signed"}
   X509Chains = {"x509", "x509b"}
-  KeyOptions = {"bothDifferent"}
-  ReplaySources = {"valid", "sigCorrupt", "sigOverOtherSize"}
+  KeyOptions = {"der", "pem", "bothSame", "bothDifferent"}
+  ReplaySources = {"valid", "validEmptyTree", "validWithExtensions", "sigCorrupt", "sigByOtherKey", "sigOverOtherSize", "sigOverOtherRoot", "sigOverOtherTimestamp", "sigMissing", "idLen0", "logIDForeign", "sigOverOtherChain", "sigOverSTHInput", "sigOverSCTInput", "rootHashLen31", "extBadBase64"}
 INIT Init
 NEXT Next
 VIEW StateView
